@@ -459,6 +459,17 @@ func (t *fnTrans) resolveMod(item string, env *Env) []modTarget {
 	if item == "*" {
 		return []modTarget{{all: true}}
 	}
+	if strings.HasPrefix(item, "mapstore(") && strings.HasSuffix(item, ")") {
+		// every map of that type (whole store)
+		if ty := t.eng.resolveType(item[len("mapstore("):len(item)-1], env.pkg); ty != nil {
+			if mt, ok := ty.Underlying().(*types.Map); ok {
+				md, mv, ml := t.mapVars(mt)
+				return []modTarget{{name: md.Name}, {name: mv.Name}, {name: ml.Name}}
+			}
+		}
+		t.errorf("modifies %q: not a map type", item)
+		return []modTarget{{all: true}}
+	}
 	x, err := parseSpec(item)
 	if err != nil {
 		t.errorf("modifies %q: %v", item, err)
@@ -571,6 +582,18 @@ func (t *fnTrans) resolveMod(item string, env *Env) []modTarget {
 			if mt, ok := ty.Underlying().(*types.Map); ok {
 				md, mv, ml := t.mapVars(mt)
 				return []modTarget{{name: md.Name, ref: v.T}, {name: mv.Name, ref: v.T}, {name: ml.Name, ref: v.T}}
+			}
+		case "mapstore":
+			// every map of that type (whole store)
+			var tyText string
+			if len(x.Args) == 1 {
+				tyText = exprTypeText(x.Args[0])
+			}
+			if ty := t.eng.resolveType(tyText, env.pkg); ty != nil {
+				if mt, ok := ty.Underlying().(*types.Map); ok {
+					md, mv, ml := t.mapVars(mt)
+					return []modTarget{{name: md.Name}, {name: mv.Name}, {name: ml.Name}}
+				}
 			}
 		case "deref":
 			if id, ok := x.Args[0].(*EIdent); ok {
@@ -786,4 +809,15 @@ func (t *fnTrans) applyContract(fc *FuncContract, key string, sig *types.Signatu
 		}
 	}
 	return res
+}
+
+// exprTypeText renders a spec expression that denotes a type name (identifier or pkg.Name).
+func exprTypeText(x Expr) string {
+	switch x := x.(type) {
+	case *EIdent:
+		return x.Name
+	case *ESelect:
+		return exprTypeText(x.X) + "." + x.Sel
+	}
+	return ""
 }
